@@ -110,6 +110,11 @@ def check_verify(case):
     flags = case.get('flags', [])
     assert not ('CLEANSTACK' in flags and 'P2SH' not in flags)
     m, tx = _tx(case)
+    if (len(ssig) + len(spk)) % 3 == 1:
+        # the caller's transaction is a MUTABLE one (a fresh object per case: an interpreter that scribbles on it - zeroed
+        # sequences, blanked scripts - gives wrong answers for later signature checks of the same script, and leaves it changed)
+        tx = libx.mk_tx(m, True if len(spk) % 2 else 'mixed')
+    tx_before = libx.tx_model_of(tx)
     idx = case.get('idx', 0)
     rs = I.Stats()
     lax0 = I.OUT_OF_SCOPE[0]
@@ -126,6 +131,8 @@ def check_verify(case):
         lib = False
     except Exception as e:
         raise unexpected('verify', e, 'ssig=%s spk=%s' % (ssig.hex()[:60], spk.hex()[:60]))
+    if libx.tx_model_of(tx) != tx_before:
+        raise Violation('verify/transaction-changed', 'VerifyScript changed the (mutable) transaction it was given')
     if lib != ok:
         raise Violation('verify/lib-%s-ref-%s' % ('accepts' if lib else 'rejects', 'accepts' if ok else 'rejects:' + why),
                         'VerifyScript(scriptSig=%s, scriptPubKey=%s, flags=%s, idx=%d, tag=%s): library %s, reference %s (%s)' % (
